@@ -107,7 +107,8 @@ def covered : List Body :=
    VaxisModel.Gen.TermBodies.body_ff, VaxisModel.Gen.TermBodies.body_cr, VaxisModel.Gen.TermBodies.body_csi_su, VaxisModel.Gen.TermBodies.body_csi_sd,
    VaxisModel.Gen.TermBodies.body_el, VaxisModel.Gen.TermBodies.body_ech, VaxisModel.Gen.TermBodies.body_ed, VaxisModel.Gen.TermBodies.body_il, VaxisModel.Gen.TermBodies.body_dl,
    VaxisModel.Gen.TermBodies.body_dch, VaxisModel.Gen.TermBodies.body_scrollUp, VaxisModel.Gen.TermBodies.body_scrollDown,
-   VaxisModel.Gen.TermBodies.body_ich, VaxisModel.Gen.TermBodies.body_print]
+   VaxisModel.Gen.TermBodies.body_ich, VaxisModel.Gen.TermBodies.body_print,
+   VaxisModel.Gen.TermBodies.body_rep]
 
 /-! Tactics: `body_norm` evaluates `evalBody` on a concrete body (first the interpreter itself, with
 the comparisons still folded so that their `Decidable` instances are built from normalised
